@@ -1,12 +1,13 @@
 #!/bin/bash
 # developer helper: apply a (supposedly behaviour-preserving) patch in a worktree and run every quick check on it
 wt=$1; patch=$2
+here=$(cd "$(dirname "$0")/.." && pwd)
 head=$(git -C /repo rev-parse HEAD)
 git -C $wt checkout -q -- . ; git -C $wt checkout -q --detach $head
 git -C $wt apply $patch || { echo "PATCH DOES NOT APPLY"; exit 3; }
 (cd $wt && /venv/bin/python -m pytest -q -p no:cacheprovider 2>&1 | tail -1)
 export FADLMC_REPO=$wt FADLMC_EVIDENCE_DIR=/tmp/fadlmc_ref_ev FADLMC_REPLAY_DIR=/tmp/fadlmc_ref_rp
-cd /verif
+cd $here
 for c in C01 C02 C03 C04 C05 C06 C07 C08 C09 C10 C11 C12 C13 C14 C15 C16 C17 C18 C19 C20; do
   out=$(/venv/bin/python -m fadlmc check $c --tier quick 2>&1); rc=$?
   if [ $rc -ne 0 ]; then echo "== $c rc=$rc"; echo "$out" | grep -E "VIOLATION|kind=|HARNESS" | head -4 | cut -c1-400; fi
